@@ -76,6 +76,7 @@ TNlp == Ev.op = "nlp"
             (i < j /\ Ev.kw[i] \in SeqSet(Ev.uw) /\ Ev.kw[j] \in SeqSet(Ev.uw) /\ Ev.kwsyn[i] = 0 /\ Ev.kwsyn[j] = 0)
                 => IdxIn(Ev.kw[i], Ev.uw) < IdxIn(Ev.kw[j], Ev.uw))      \* (a synonym may follow its word: such slots are exempt)
     /\ Ev.same                                                            \* analysing the same text again gives the same analysis
+    /\ Ev.onsame                                                          \* ... also inside a database that has analysed other texts before
 
 \* C03 (a): the candidates are exactly the documents containing a content word of the query (all of them up to ten
 \* content words, at least those of the first four otherwise); for small databases TLC recomputes the scan from token ids
